@@ -52,10 +52,12 @@ def value_strategy(name):
     if t == "b":
         return st.booleans()
     if t == "s":
+        # "/dev/null" is the documented way to say "explicitly no file" for the results file and the start distribution:
+        # the getters then report an empty name (round-4 seed C20d lives on exactly that value plus a loaded config file)
         if name == "output":
-            return FNAME.map(lambda s: s + ".h5")
+            return st.integers(0, 5).flatmap(lambda k: st.just("/dev/null") if k == 0 else FNAME.map(lambda s: s + ".h5"))
         if name == "InitialDistFile":
-            return FNAME.map(lambda s: s + ".txt")
+            return st.integers(0, 5).flatmap(lambda k: st.just("/dev/null") if k == 0 else FNAME.map(lambda s: s + ".txt"))
         return FNAME
     if t == "vf4":
         return st.lists(st.one_of(st.just(0.0), st.floats(1e-5, 1e-1)), min_size=1, max_size=5).map(
@@ -128,7 +130,7 @@ def expected_getter(name, v):
     if t == "b":
         return 1.0 if v else 0.0
     if t == "s":
-        return v
+        return "" if (v == "/dev/null" and name in ("output", "InitialDistFile")) else v
     if t == "f4":
         return float(np.float32(v))
     return float(v)
